@@ -79,6 +79,45 @@ struct Txt {
     s: String,
     p: Prec,
 }
+/// is the whole text one `{ ... }` (the opening brace closes at the very end)?  `{ a: 1 } extends X ? Y : { b: 2 }` and
+/// `{ a: 1 } & { b: 2 }` are not.
+fn is_one_object_literal(text: &str) -> bool {
+    let t = text.trim();
+    if !t.starts_with('{') || !t.ends_with('}') {
+        return false;
+    }
+    let cs: Vec<char> = t.chars().collect();
+    let mut depth = 0i32;
+    let mut i = 0;
+    while i < cs.len() {
+        let c = cs[i];
+        match c {
+            '"' | '\'' | '`' => {
+                // skip the string / template text (nested `${}` holes of templates hold types without braces at depth 0
+                // only in spellings this renderer does not put inside intersections)
+                let q = c;
+                i += 1;
+                while i < cs.len() && cs[i] != q {
+                    if cs[i] == '\\' {
+                        i += 1;
+                    }
+                    i += 1;
+                }
+            }
+            '{' => depth += 1,
+            '}' => {
+                depth -= 1;
+                if depth == 0 && i + 1 < cs.len() {
+                    return false;
+                }
+            }
+            _ => {}
+        }
+        i += 1;
+    }
+    depth == 0
+}
+
 fn atom(s: impl Into<String>) -> Txt {
     Txt { s: s.into(), p: Prec::Atom }
 }
@@ -575,7 +614,7 @@ impl<'a, 'b> Renderer<'a, 'b> {
                     let t = self.ty_at(m, path);
                     self.inter_member = false;
                     // (a mapped type `{ [K in ...]: T }` is not an object literal to the compiler's syntactic merge)
-                    part_members.push(if t.s.trim_start().starts_with('{') && t.s.trim_end().ends_with('}') && !t.s.contains("} & {") && !t.s.trim_start().starts_with("{ [K in ") { Some(self.last_members.clone()) } else { None });
+                    part_members.push(if is_one_object_literal(&t.s) && !t.s.trim_start().starts_with("{ [K in ") { Some(self.last_members.clone()) } else { None });
                     path.pop();
                     parts.push(need(t, Prec::Inter));
                 }
